@@ -35,6 +35,8 @@ def run_tlc(module, cfg=None, env=None, workers='auto', timeout=600, extra=None,
         if deque:
             jopts += ' -Dtlc2.tool.queue.IStateQueue=StateDeque'
         jopts += ' -Xss64m'
+        if heap:
+            jopts += ' -Xmx' + heap
         e['JAVA_TOOL_OPTIONS'] = jopts.strip()
         t0 = time.time()
         try:
